@@ -148,6 +148,16 @@ pub struct DedupNoNames {
     pub t: DeduplicatedString,
 }
 
+/// the added field is declared *before* the fields of chunk 0: strings are numbered in the order the fields are written
+/// (declaration order), the chunks are laid out in chunk order
+#[derive(BinaryCodec)]
+#[evolution(FieldAdded("t", DeduplicatedString("dflt".to_string())))]
+pub struct DedupAddedFirst {
+    pub t: DeduplicatedString,
+    pub s: DeduplicatedString,
+    pub u: DeduplicatedString,
+}
+
 /// version 0 record with dedup strings
 #[derive(BinaryCodec)]
 pub struct DedupV0 {
@@ -208,6 +218,7 @@ rec_model!(DedupRemoved { s: DeduplicatedString, t: DeduplicatedString });
 rec_model!(DedupMixed { s: DeduplicatedString, t: DeduplicatedString, cache: u8, u: String });
 rec_model!(DedupNoNames { s: DeduplicatedString, o: Option<DeduplicatedString>, t: DeduplicatedString });
 rec_model!(DedupV0 { a: DeduplicatedString, b: String, c: DeduplicatedString });
+rec_model!(DedupAddedFirst { t: DeduplicatedString, s: DeduplicatedString, u: DeduplicatedString });
 rec_model!(MaxSteps { a: u8, b: String });
 rec_model!(BadEvolution { a: u8 });
 include!("special_wide.rs");
@@ -623,6 +634,21 @@ pub fn register(reg: &mut Registry) {
     reg.add_tagged::<DedupMixed>("DedupMixed", &["special:dedup", "dedup_header_names"]);
     reg.add_tagged::<DedupNoNames>("DedupNoNames", &["special:dedup"]);
     reg.add_tagged::<DedupV0>("DedupV0", &["special:dedup"]);
+    refmodel::register(
+        "DedupAddedFirst",
+        Ty::Record(Arc::new(RecordSchema {
+            name: "DedupAddedFirst".into(),
+            fields: vec![
+                sbase::fs::<DeduplicatedString>("t", false, false, Some(Val::Str("dflt".into()))),
+                f::<DeduplicatedString>("s", false),
+                f::<DeduplicatedString>("u", false),
+            ],
+            steps: vec![Step::Added("t".into())],
+        })),
+    );
+    reg.add_tagged::<DedupAddedFirst>("DedupAddedFirst", &["special:dedup"]);
+    reg.add_tagged::<Vec<DedupAddedFirst>>("Vec<DedupAddedFirst>", &["special:dedup"]);
+    reg.add_tagged::<(DedupAddedFirst, DeduplicatedString, DedupAddedFirst)>("(DedupAddedFirst, DeduplicatedString, DedupAddedFirst)", &["special:dedup"]);
     // containers of them: the string table spans the whole stream
     reg.add_tagged::<Vec<DedupRemoved>>("Vec<DedupRemoved>", &["special:dedup", "dedup_header_names"]);
     reg.add_tagged::<(DeduplicatedString, DedupRemoved, DeduplicatedString)>("(DeduplicatedString, DedupRemoved, DeduplicatedString)", &["special:dedup", "dedup_header_names"]);
